@@ -13,6 +13,7 @@
 package c13store
 
 import (
+	"bytes"
 	"context"
 	"errors"
 	"io"
@@ -67,6 +68,11 @@ type Store struct {
 	GetDelay time.Duration
 	// Pages counts KeysPrefix calls that succeeded.
 	Pages int
+	// PutHook, when set, runs inside Put once the source has been read in full and before the
+	// object lands (the acknowledgement of the write is what it delays); ListHook runs before a
+	// KeysPrefix call is served.
+	PutHook  func(key string)
+	ListHook func(prefix string)
 }
 
 // New wraps inner with no fault.
@@ -226,6 +232,14 @@ func (s *Store) Put(ctx context.Context, k string, r io.Reader, noOverwrite bool
 		_, _ = io.Copy(io.Discard, r)
 		return ErrTransient
 	}
+	if s.PutHook != nil {
+		data, rerr := io.ReadAll(r)
+		if rerr != nil {
+			return rerr
+		}
+		s.PutHook(k)
+		r = bytes.NewReader(data)
+	}
 	err := s.Store.Put(ctx, k, r, noOverwrite)
 	if err == nil && counted {
 		s.mu.Lock()
@@ -253,6 +267,9 @@ func (s *Store) Keys(ctx context.Context) ([]string, error) {
 }
 
 func (s *Store) KeysPrefix(ctx context.Context, token, prefix, delim string, count int) ([]string, string, error) {
+	if s.ListHook != nil {
+		s.ListHook(prefix)
+	}
 	d, f := s.gate(List, true)
 	if d {
 		return nil, "", s.crashed()
